@@ -2,7 +2,7 @@
 from .common import emit_struct, emit_method, str_shims, fmt_to_concat, mono
 
 NAME = 'u6_root'
-PROPS = ['C13', 'C02', 'C04', 'C05']
+PROPS = ['C13', 'C02', 'C04', 'C05', 'C01', 'C09', 'C08', 'C03']
 T = 'src/types.rs'
 
 
@@ -33,12 +33,12 @@ def build(u):
     emit_method(u, T, r'SourceMap\b', 'prefix_source', 'types::SourceMap::prefix_source', prep=prep)
 
     def prep_ssr(f):
-        mono(f, u, 'T', r'Into<Arc<str>>', 'Arc<str>')
         str_shims(f, u)
         u.count('R-closure', f.annotate_closure('rs', 'rs: &&str', '(b: bool) ensures b == !(rs@.len() == 0)', expect=1))
         u.count('R-closure', f.annotate_closure('source', 'source: &Arc<str>',
                 '(o: Arc<str>) ensures arc_chars(&o) == prefix_spec(source_root@, arc_chars(source))', expect=1))
-    emit_method(u, T, r'SourceMap\b', 'set_source_root', 'types::SourceMap::set_source_root', prep=prep_ssr)
+    emit_method(u, T, r'SourceMap\b', 'set_source_root', 'types::SourceMap::set_source_root', prep=prep_ssr,
+                sig_prep=lambda f: mono(f, u, 'T', r'Into<Arc<str>>', 'Arc<str>'))
     def prep_get(f):
         str_shims(f, u)
         if '|x|' in f.text:
